@@ -6,7 +6,7 @@ from props import sqio_common as S
 hx = S.hx
 
 # theorems added in round 6 (kept here: sqio_common.py is shared with C02 / C07)
-R6_THEOREMS = ["tracker_iff", "tracker_sound", "tracker_rejects_former_exceptions"]
+R6_THEOREMS = ["tracker_iff", "tracker_sound", "tracker_rejects_former_exceptions", "position_then_read_eq_record", "rewind_then_read_all_eq_parseFasta"]
 
 
 def tracker_predicate(data):
@@ -26,6 +26,35 @@ def tracker_predicate(data):
     holds = p > 0 and w > 0 and all((b, r) == (w, p) for b, r, _ in nonfinal) and all(
         r <= p and b - r - (1 if term else 0) <= w - p - 1 for lines in recs for b, r, term in lines)
     return w, p, holds
+
+
+def gen_boundary(rng, kind):
+    """FASTA files at the boundaries the quantifier names: per-LINE mixture of LF / CRLF terminators, last record unterminated (or an
+    unterminated header), record lengths 0 / 1 / w-1 / w / w+1 / k*w. Returns (bytes, [(roff, header+data byte length, residues)])."""
+    w = rng.choice([1, 2, 5, 10, 60])
+    nrec = rng.choice([1, 2, 3, 4])
+    mix = rng.random() < 0.7
+    eol0 = rng.choice(["\n", "\r\n"])
+    used, out, recs = set(), [], []
+    pos = 0
+    for i in range(nrec):
+        L = rng.choice([0, 1, max(1, w - 1), w, w + 1, 2 * w, 3 * w, 3 * w + 1, rng.randrange(0, 6 * w + 2)])
+        sq_ = S.rand_residues(rng, L, kind)
+        L = len(sq_)
+        nm = S.rand_name(rng, used)
+        ds = rng.choice(["", "", "d", "a b c"])
+        text = ">" + nm + ((" " + ds) if ds else "") + (rng.choice(["\n", "\r\n"]) if mix else eol0)
+        for k in range(0, L, w):
+            text += sq_[k:k + w] + (rng.choice(["\n", "\r\n"]) if mix else eol0)
+        recs.append([pos, len(text), sq_])
+        out.append(text)
+        pos += len(text)
+    text = "".join(out)
+    if rng.random() < 0.4:
+        cut = 2 if text.endswith("\r\n") else 1
+        text = text[:-cut]
+        recs[-1][1] -= cut
+    return text.encode("latin-1"), recs
 
 
 def gen_trackscan(rng):
@@ -158,6 +187,50 @@ class C04(Prop):
         out = []
         for c in range(n):
             kind = rng.choice(["dna", "dna", "dna", "rna", "amino"])
+            if rng.random() < 0.10:
+                # boundary shapes of the quantifier: LF/CRLF mixed per line, unterminated last record, B = k*B +- 1 against the byte size of
+                # a record, windows (C, W) in {0, 1, L-1, L, L+1} and W*k = L exactly, esl_sqfile_Position at every record offset then Read
+                kind = rng.choice(["dna", "rna", "amino"])
+                data, recs_ = gen_boundary(rng, kind)
+                nrec = len(recs_)
+                ops = ["file ext=fa hex=" + hx(data), "open fmt=fasta abc=text B=4096"] + ["read"] * (nrec + 1) + ["close"]
+                def bsize():
+                    off, nb, _ = rng.choice(recs_)
+                    k = rng.choice([1, 1, 2, 3])
+                    return max(1, rng.choice([nb // k - 1, nb // k, nb // k + 1, (off + nb) // k - 1, (off + nb) // k, (off + nb) // k + 1, max(1, off) - 1, max(1, off), off + 1]))
+                # (a) Position at every record offset (in a shuffled order, some twice), then Read / ReadInfo / ReadSequence: the record there
+                abc = rng.choice(["text", kind])
+                ops.append("open fmt=fasta abc=%s B=%d" % (abc, bsize()))
+                ops += ["read"] * rng.choice([0, 1, nrec + 1])
+                order = list(range(nrec)) + [rng.randrange(nrec) for _ in range(2)]
+                rng.shuffle(order)
+                for k in order:
+                    ops += ["pos off=%d" % recs_[k][0], rng.choice(["read", "read", "readinfo", "readseq"])]
+                    if rng.random() < 0.3 and k + 1 < nrec:
+                        ops.append("read")                     # and the one after it
+                ops += ["pos off=0"] + ["read"] * (nrec + 1) + ["close"]
+                # (b) windows at the boundaries
+                for _ in range(rng.choice([1, 2])):
+                    abc = rng.choice(["text", kind])
+                    ops.append("open fmt=fasta abc=%s B=%d" % (abc, bsize()))
+                    for off, nb, sq_ in recs_:
+                        L = len(sq_)
+                        divs = [d for d in range(1, L + 1) if L % d == 0] or [1]
+                        W = rng.choice([1, max(1, L - 1), max(1, L), L + 1, rng.choice(divs), rng.choice(divs), 2, 3])
+                        C = rng.choice([0, 1, max(0, L - 1), L, L + 1, W, max(0, W - 1), W + 1])
+                        nwin = min(70, (L + W - 1) // W if L else 0)
+                        if (L + W - 1) // W > 70:
+                            W = L // 60 + 1
+                            nwin = (L + W - 1) // W
+                        ops += ["readwin C=%d W=%d" % (C, W)] * (nwin + 1)
+                        if kind != "amino" and abc != "amino" and rng.random() < 0.6:
+                            ops.append("geom")
+                            ops += ["readwin C=%d W=%d" % (rng.choice([0, 1, C]), -W)] * (nwin + 1)
+                        ops.append("reuse")
+                    ops += ["readwin C=0 W=1", "close"]
+                out.append({"name": "boundary%d" % c, "ops": ops, "sticky": 1,
+                            "meta": {"kind": kind, "geom": "boundary", "nrec": nrec, "posscan": [r[0] for r in recs_]}})
+                continue
             if rng.random() < 0.06:
                 # sequential scan + `geom`: the tracker's final (bpl, rpl) must be what tracker_iff (Sqio/TrackerExact.lean) says for the
                 # file's lines - checked on the implementation's answer by monitor()
@@ -342,8 +415,55 @@ class C04(Prop):
         return sum(1 for l in out if l.startswith("ok name=")) >= 1
 
     # ---------------------------------------------------------------- monitor
+    def monitor_position(self, case, out):
+        """position_then_read_eq_record / rewind_then_read_all_eq_parseFasta on the implementation: within a case, after
+        esl_sqfile_Position(off) the next Read / ReadInfo / ReadSequence returns the record whose roff is off in the sequential scan of the
+        same file (first session), field by field (ReadInfo: no residues; its L may be -1 or the length)."""
+        meta = case.get("meta") or {}
+        if "posscan" not in meta:
+            return None
+        byoff, order, pending, nxt = {}, [], None, None
+        first = True
+        for op, l in zip(case["ops"], out):
+            w = op.split()
+            if w[0] == "close":
+                first = False
+                pending = nxt = None
+            elif w[0] == "pos":
+                off = int(w[1].split("=")[1])
+                if not l.startswith("ok"):
+                    return Failure("monitor", "esl_sqfile_Position(%d) on a record offset failed: %s" % (off, l[:40]))
+                pending, nxt = off, None
+            elif w[0] in ("read", "readinfo", "readseq"):
+                r = S.rec(l)
+                if first:
+                    if r is not None:
+                        byoff[r["roff"]] = r
+                        order.append(r["roff"])
+                    continue
+                want_off = pending if pending is not None else nxt
+                pending = nxt = None
+                if want_off is None:
+                    continue
+                if want_off not in byoff:
+                    return Failure("monitor", "generator offset %d is not a record offset of the sequential scan %s" % (want_off, order))
+                ref = byoff[want_off]
+                if r is None:
+                    return Failure("monitor", "%s after Position(%d) returned %r, the scan has record %r there" % (w[0], want_off, l[:60], ref["name"]))
+                keys = ["name", "acc", "desc", "roff", "hoff", "doff", "eoff"] + ([] if w[0] == "readinfo" else ["seq", "n", "L"])
+                if w[0] == "readseq":
+                    keys = ["seq", "n", "L", "doff", "eoff"]
+                for k in keys:
+                    if k == "seq" and len(r.get("seq") or b"") == len(ref.get("seq") or b"") and r.get("seq") != ref.get("seq"):
+                        continue          # digital vs text encoding of the same residues (agreement across modes is monitor_c04's business)
+                    if r.get(k) != ref.get(k):
+                        return Failure("monitor", "%s after Position(%d): %s = %r, the sequential scan has %r" % (w[0], want_off, k, r.get(k), ref.get(k)))
+                i = order.index(want_off)
+                nxt = order[i + 1] if i + 1 < len(order) else None
+        return None
+
     def monitor(self, ctx, case, out):
-        f = S.monitor_c04(case, out)
+        f = S.monitor_c04(case, out) or self.monitor_position(case, out)
         if f or not (case.get("meta") or {}).get("trackscan"):
             return f
         # tracker_iff (TrackerExact.lean) against the real seebuf(): after a sequential scan of the whole file from open on, by Read or
